@@ -376,6 +376,11 @@ class Emitter:
         return k(str(e.val), INT("char"), env)
 
     def e_str(self, e, env, k):
+        if self.v.get("str_chars") and e.kind == "str":
+            # optional vocabulary key `str_chars: <type>`: a &str literal is the list of its code points
+            # (a Rust String as its sequence of chars), of the given type
+            cps = [ord(c) for c in bytes(e.val).decode("utf-8")]
+            return k("[" + "; ".join(str(c) for c in cps) + "]", self.v["str_chars"], env)
         return k("[" + "; ".join(str(b) for b in e.val) + "]", ("list", INT("u8")), env)
 
     e_bstr = e_str
@@ -457,6 +462,13 @@ class Emitter:
         raise EmitError("unary %s" % e.op)
 
     def e_cast(self, e, env, k):
+        hook = self.v.get("cast_hook")
+        if hook is not None:
+            # optional vocabulary key `cast_hook`: callable(em, e, env, k) -> code | None (casts the subset
+            # has no arithmetic for, e.g. through f64)
+            r = hook(self, e, env, k)
+            if r is not None:
+                return r
         target = self.ty_of_ast(e.ty)
         def k1(t, ty, env1):
             if ty[0] == "enum" and is_int(target):
@@ -998,6 +1010,16 @@ class Emitter:
                     return k(envx)
                 return self.bind_pattern(subs[j][0], subs[j][1], subs[j][2], envx, lambda e3: go(j + 1, e3))
             return "let '(%s) := %s in\n%s" % (", ".join(names), term, go(0, e2))
+        if pat.kind == "ptstruct" and self.v.get("structs", {}).get(pat.segs[-1], {}).get("tuple_pattern"):
+            # `let RgbColor(r, g, b) = c;` on a tuple struct the hand model represents as a product
+            # (optional struct key `tuple_pattern: True`; field types from the fields "0", "1", ..)
+            st = self.v["structs"][pat.segs[-1]]
+            if ty != ("struct", pat.segs[-1]) and ty != UNKNOWN:
+                raise EmitError("pattern %s against a value of type %r" % (pat.segs[-1], ty))
+            if sorted(st["fields"]) != [str(i) for i in range(len(pat.elems))]:
+                raise EmitError("pattern %s: %d fields, the vocabulary models %s" % (pat.segs[-1], len(pat.elems), sorted(st["fields"])))
+            tys = tuple(st["fields"][str(i)][2] for i in range(len(pat.elems)))
+            return self.bind_pattern(N("ptuple", elems=pat.elems), term, ("tuple", tys), env, k)
         raise EmitError("refutable or unsupported pattern %s in let" % pat.kind)
 
     def let_stmt(self, s, env, rest):
@@ -1033,6 +1055,10 @@ class Emitter:
         return self.ctl.cont(env)
 
     def e_if(self, e, env, k):
+        if e.cond.kind == "letcond" and e.cond.e.kind == "mcall" and self.v.get("borrow_methods"):
+            ent = self.borrow_entry(e.cond.e, env)
+            if ent is not None:
+                return self.if_let_borrow(e, ent, env, k)
         if e.cond.kind == "letcond":
             arms = [(e.cond.pat, None, e.then), (N("pwild"), None, e.els if e.els is not None else N("block", stmts=[], tail=None))]
             return self.e_match(N("match", scrut=e.cond.e, arms=arms), env, k)
@@ -1048,6 +1074,128 @@ class Emitter:
                 env1, k,
                 lambda kk: "if %s then\n%s\nelse\n%s" % (c, ind(self.expr(e.then, env1, kk)), ind(self.expr(els, env1, kk))))
         return self.expr(e.cond, env, k1)
+
+    # -- mutable borrows of one element (vocabulary `borrow_methods`) ---------------
+    # `if let Some(PAT) = place.last_mut() { body }`: PAT binds `&mut` references into an element of
+    # `place`; the body may assign through them (`*last = ..`).  Translation: read the element
+    # (`get place : option elt`), run the body on the pattern variables, rebuild the element from their
+    # final values and write it back (`set place elt`).
+    # entry: {(type name, method): {"get": coq fn, "set": coq fn}}
+    def borrow_entry(self, mc, env):
+        if mc.args or self.place_root(mc.recv) is None:
+            return None
+        pr = self.try_pure(mc.recv, env)
+        if pr is None:
+            return None
+        rty = pr[1]
+        tname = rty[1] if rty[0] in ("struct", "enum") else rty[0]
+        ent = self.v["borrow_methods"].get((tname, mc.name))
+        if ent is None:
+            return None
+        return ent, pr[0], rty
+
+    def rebuild_pattern(self, p, ty, binds):
+        """(Gallina pattern with every component named, rebuild(env) -> term) for an irrefutable
+        tuple / identifier / wildcard pattern; binds collects (rust name, coq name, type)"""
+        while p.kind == "pref":
+            p = p.inner
+        if p.kind == "pwild":
+            n = self.fresh("w")
+            return n, (lambda envx: n)
+        if p.kind == "pident" and p.sub is None:
+            n = self.fresh(p.name)
+            binds.append((p.name, n, ty))
+            return n, (lambda envx, name=p.name, idx=len(binds) - 1: envx.by_decl(name, binds[idx][3]).coq)
+        if p.kind == "ptuple":
+            tys = ty[1] if ty[0] == "tuple" and len(ty[1]) == len(p.elems) else [UNKNOWN] * len(p.elems)
+            parts = [self.rebuild_pattern(x, t, binds) for x, t in zip(p.elems, tys)]
+            return "(" + ", ".join(a for a, _ in parts) + ")", (lambda envx: "(" + ", ".join(f(envx) for _, f in parts) + ")")
+        raise EmitError("pattern %s over a mutable borrow" % p.kind)
+
+    def bind_borrowed(self, binds, env):
+        """bind the pattern variables of rebuild_pattern as `&mut` variables; records their declaration ids"""
+        env2 = env
+        for i, b in enumerate(binds):
+            env2 = env2.bind(b[0], b[1], b[2], "ref")
+            binds[i] = (b[0], b[1], b[2], env2.get(b[0]).decl)
+        return env2
+
+    def if_let_borrow(self, e, entry, env, k):
+        ent, rt, rty = entry
+        pat = e.cond.pat
+        while pat.kind == "pref":
+            pat = pat.inner
+        if pat.kind != "ptstruct" or pat.segs[-1] != "Some" or len(pat.elems) != 1 or rty[0] != "list":
+            raise EmitError("if let over a mutable borrow: the pattern is not Some(..)")
+        recv = e.cond.e.recv
+        els = e.els if e.els is not None else N("block", stmts=[], tail=None)
+
+        def build(kk):
+            binds = []
+            cpat, rebuild = self.rebuild_pattern(pat.elems[0], rty[1], binds)
+            env2 = self.bind_borrowed(binds, env)
+
+            def after(_t, _ty, envb):
+                elt = rebuild(envb)
+                return self.write_place(recv, "(%s %s %s)" % (ent["set"], rt, elt), self.restrict(envb, env), lambda env3: kk("tt", UNIT, env3))
+            body = self.expr(e.then, env2, after)
+            return "match %s %s with\n| Some %s =>\n%s\n| None =>\n%s\nend" % (ent["get"], rt, cpat, ind(body, 4), ind(self.expr(els, env, kk), 4))
+        return self.join_branches(env, k, build)
+
+    # `for PAT in &mut place { body }` (optional vocabulary key `for_mut: True`): the body may assign
+    # through the pattern variables; the loop state carries the list of rebuilt elements, which
+    # becomes the new value of `place`.  `break` / `return` inside are not supported.
+    def for_mut(self, e, env, k):
+        place = e.iter.e
+        pr = self.try_pure(place, env)
+        if pr is None or pr[1][0] != "list":
+            raise EmitError("for over `&mut` of something that is no list place")
+        lst, lty = pr
+        if self.has_return(e.body):
+            raise EmitError("return inside `for .. in &mut ..`")
+        st = self.assigned(e.body, env)
+        root = self.place_root(place)
+        if root in st:
+            raise EmitError("`for .. in &mut %s` whose body assigns %s" % (root, root))
+        x = self.fresh("x")
+        acc = self.fresh("acc")
+        env2 = env
+        stn = []
+        for n in st:
+            c = self.fresh(env.get(n).coq.rstrip("0123456789") or n)
+            stn.append(c)
+            env2 = env2.rebind(n, c)
+        binds = []
+        cpat, rebuild = self.rebuild_pattern(e.pat, lty[1], binds)
+        env3 = self.bind_borrowed(binds, env2)
+        tup = lambda envx: self.tuple_of(["(%s ++ [%s])" % (acc, rebuild(envx))] + [envx.by_decl(n, env.get(n).decl).coq for n in st])
+        old = self.ctl
+        oldpm = self.pure_mode
+        self.pure_mode = 0
+
+        def nobreak(envx):
+            raise EmitError("break inside `for .. in &mut ..`")
+        self.ctl = Ctl(lambda envx, t, ty: nobreak(envx), nobreak, lambda envx: "Some (BNext %s)" % tup(envx))
+        try:
+            body = self.expr(e.body, env3, lambda _t, _ty, envx: "Some (BNext %s)" % tup(envx))
+        finally:
+            self.ctl = old
+            self.pure_mode = oldpm
+        fterm = "(fun %s '(%s) =>\n%s)" % (x, ", ".join([acc] + stn), ind("let '%s := %s in\n%s" % (cpat, x, body) if cpat != x else body, 4))
+        init = self.tuple_of(["[]"] + [env.get(n).coq for n in st])
+        if self.pure_mode:
+            raise NeedsBind()
+        r = self.fresh("st")
+        acc2 = self.fresh("acc")
+        names = []
+        env4 = env
+        for n in st:
+            c = self.fresh(env.get(n).coq.rstrip("0123456789") or n)
+            names.append(c)
+            env4 = env4.rebind(n, c)
+        return "%s <- for_list0 %s %s %s ;;\nlet '(%s) := %s in\n%s" % (
+            r, fterm, lst, init, ", ".join([acc2] + names), r,
+            self.write_place(place, acc2, env4, lambda env5: k("tt", UNIT, env5)))
 
     # patterns ---------------------------------------------------------------
     def pat_is_ctor_like(self, p, ty):
@@ -1819,6 +1967,14 @@ class Emitter:
                     # macro call assigns (`write!(f, ..)`: f); macro arguments are tokens, not AST
                     for n in self.v["macro_writes"](self, x):
                         add(n)
+                elif x.kind == "macro" and not self.v.get("macro_writes"):
+                    # a vocabulary macro that writes to one of its arguments (`write!(buf, ..)`): the callable's
+                    # optional attribute `writes(macro node) -> [place expressions]`
+                    h = self.v.get("macros", {}).get(x.name.split("::")[-1])
+                    wr = getattr(h, "writes", None)
+                    if wr is not None:
+                        for a in wr(x):
+                            add(self.place_root(a))
                 elif x.kind == "call":
                     # a `&mut` variable passed on by name
                     for a in x.args:
@@ -1938,6 +2094,8 @@ class Emitter:
         return self.expr(it, env, k1)
 
     def e_for(self, e, env, k):
+        if self.v.get("for_mut") and e.iter.kind == "unary" and e.iter.op == "&mut":
+            return self.for_mut(e, env, k)
         lz = self.lazy_iter_of(e.iter, env)
         if lz is not None:
             return self.for_lazy(e, lz, env, k)
